@@ -15,6 +15,8 @@
         -> "<result> | <state> | <cmp>"
    "flush | <off>:<hex> ..."                   VolSession.vol_flush_entry (File::flush, or the drop of the handle)
         -> "ok <dirty before 0|1> | <state> | <cmp>"
+   "remove <name hex> | <off>:<hex> ..."        VolRemove.vol_remove_file_root on the model image with the latch of the (dropped) handle's
+        session: lookup, free_cluster_chain on the FAT copies, deletion loop -> "ok | - | <cmp>" | "err <kind> | - | <cmp>" | "none | - | <cmp>"
    "sync m|x | <off>:<hex> ..."                device writes of a call the model does nothing for (second flush, drop after
         flush: still mounted, "m"; unmount: the status byte is cleared again, "x" = exact comparison) -> "ok | <state> | <cmp>"
    "digest"                                    -> "ok <page digest of the MODEL image>" (executor `pages` format, md5 per page)
@@ -148,6 +150,8 @@ let line (t : string list) : string =
   | "create" :: name :: y :: m :: d :: h :: mi :: s :: ms :: rest ->
     let (_, wr) = split_bar [] rest in
     apply_writes wr;
+    (* the FS-info latch lives in the FileSystem: a later create_file sees what the earlier handles left *)
+    (match !st with Some s0 -> fi := s0.VolSession.s_fi | None -> ());
     (match VolSession.sess_create upper oem !mim !fi (name_of_hex name) (M_c18.mkdt y m d h mi s ms) with
      | Some s0 ->
        st := Some s0; mim := s0.VolSession.s_im; fi := s0.VolSession.s_fi;
@@ -180,6 +184,17 @@ let line (t : string list) : string =
        st := Some s1; mim := s1.VolSession.s_im;
        Printf.sprintf "ok %d | %s | %s" (if dirty then 1 else 0) (state_s ()) (compare_images (status_off ()))
      | None -> "bad")
+  | "remove" :: name :: rest ->
+    let (_, wr) = split_bar [] rest in
+    apply_writes wr;
+    let fi0 = (match !st with Some s0 -> s0.VolSession.s_fi | None -> !fi) in
+    st := None;
+    (match VolRemove.vol_remove_file_root upper oem !mim fi0 (name_of_hex name) with
+     | Some ((r, im'), fi') ->
+       mim := im'; fi := fi';
+       Printf.sprintf "%s | - | %s" (match r with Base.Ok _ -> "ok" | Base.Err e -> "err " ^ err_name e | Base.Panic -> "panic" | Base.OutOfFuel -> "fuel")
+         (compare_images (status_off ()))
+     | None -> fi := fi0; Printf.sprintf "none | - | %s" (compare_images (status_off ())))
   | "sync" :: how :: rest ->
     let (_, wr) = split_bar [] rest in
     apply_writes wr;
